@@ -94,6 +94,9 @@ pub enum Ty {
     List(Box<Ty>, Option<usize>),
     /// pubKeyCredParams: list of {alg, type}; view = first two known algorithms (lossy)
     Params,
+    /// `algorithms` as an authenticator emits it: list of at most two {alg, type: "public-key"}
+    /// with any 32-bit algorithm identifier (nothing is filtered when encoding); view = [alg]
+    ParamsOut,
     /// attestationFormatsPreference: list of text; view = first two known + unknown flag
     Formats,
     /// numeric enumeration
@@ -396,7 +399,17 @@ pub fn certifications() -> Ty {
     )
 }
 
+/// GetInfo as an authenticator can construct it (encode direction)
 pub fn get_info_response() -> Ty {
+    get_info_response_with(Ty::ParamsOut)
+}
+
+/// GetInfo in the loss-free round-trip domain (decoding filters unknown algorithms)
+pub fn get_info_response_roundtrip() -> Ty {
+    get_info_response_with(Ty::Params)
+}
+
+fn get_info_response_with(algorithms: Ty) -> Ty {
     let mut v = vec![
         f(1, "versions", true, Ty::List(Box::new(Ty::TextEnum(&VERSIONS)), Some(4))),
         f(2, "extensions", false, Ty::List(Box::new(Ty::TextEnum(&EXTENSIONS)), Some(4))),
@@ -407,7 +420,7 @@ pub fn get_info_response() -> Ty {
         f(7, "maxCredentialCountInList", false, Ty::Uint(USZ)),
         f(8, "maxCredentialIdLength", false, Ty::Uint(USZ)),
         f(9, "transports", false, Ty::List(Box::new(Ty::TextEnum(&TRANSPORTS)), Some(4))),
-        f(10, "algorithms", false, Ty::Params),
+        f(10, "algorithms", false, algorithms),
         f(11, "maxSerializedLargeBlobArray", false, Ty::Uint(USZ)),
     ];
     if f_g() {
